@@ -17,6 +17,7 @@ func init() {
 		c19Protocol(c)      // C07.5: Refresh re-arms on every path (shared with C19.1)
 		c03CloseEpilogue(c) // C07.6: both timers are cleared before the close event (C03.3)
 		c07ClearTransport(c)
+		c19WhoClears(c) // C07.7: nobody else cancels the heartbeat timers
 	})
 }
 
